@@ -18,6 +18,7 @@ and `blobRead_returns_stream` (never fewer, more or other bytes, for ANY descrip
 import E57.Proofs.WriterProps
 import E57.Proofs.History
 import E57.Proofs.BlobRoundTrip
+import E57.Proofs.Walk
 namespace E57.C06
 open E57
 
